@@ -110,7 +110,7 @@ def each_scenarios(ck, n, small=False):
     scs = []
     sizes = [1, 2, 3, 4, 5, 7, 8, 9, 11, 12, 13, 16, 17, 31, 33] if not small else [1, 2, 3, 4, 5, 6, 8, 9]
     for i in range(n):
-        cat = "ifr"[i % 3]
+        cat = "ifrd"[i % 4]
         m = rng.choice(sizes) if rng.random() < 0.8 else rng.randrange(1, 60 if not small else 10)
         if i % 41 == 40:
             m = 0
@@ -172,7 +172,7 @@ def ra_chunks(trace):
 def driver_input(sc, trace, consts):
     w = sc.split()
     if w[0] == "each":
-        cat, T, n = w[1], int(w[2]), int(w[6])
+        cat, T, n = ("i" if w[1] == "d" else w[1]), int(w[2]), int(w[6])      # (d: a derived input tag, the same model as i)
         ids = w[7:7 + n]
         rest = strip_poison(w[7 + n:])           # F k …
         trace = [l for l in trace if not (l.startswith("ev ") and l.split()[2] == "addthrow")]
@@ -200,9 +200,9 @@ def monitors(sc, trace, mline, consts):
             return "a feeder::add that failed (item constructor threw) changed the reference counters: %s -> %s" % (prev, snap)
         if snap is not None:
             prev = snap
-    if w[0] == "each" and w[1] in "if":
+    if w[0] == "each" and w[1] in "ifd":
         n = int(w[6])
-        mb = consts["maxBlockInput"] if w[1] == "i" else consts["maxBlockForward"]
+        mb = consts["maxBlockInput"] if w[1] in "id" else consts["maxBlockForward"]
         # blocks: the root task's increments between two spawns of itself
         sizes, cur, pos = [], 0, 0
         for l in trace:
